@@ -17,11 +17,6 @@ step a block of its own).  This file:
 * `blocks_aligned_split_equals_unsplit_partial` — for the literal split set-up with recomputed blocks (`setupSplitK`)
   and the unsplit problem (`setupPortfolioK`): when the witness of `EAO.C14` holds along the explicit matching,
   feasible sets and values correspond both ways and the value sets have the same upper bounds: split = unsplit.
-* machine-checked instances: an ALIGNED one (blocks of 90 minutes on an hourly grid, own start: `blocksAligned` and
-  the witness are true), F-14k (blocks of 3 h, intervals of 4 h: misaligned, a split-feasible point violates the
-  unsplit problem) and F-14f (blocks = intervals of 4 h: the last step of every interval is a block of its own, an
-  unsplit-feasible point is not split-feasible).
-
 * `blocked_storage_interval_is_restriction` — ONE storage in LP form apart from time blocks, no storage costs, start
   level = end level: if every unsplit block lies inside the interval's piece `[sa, sa+m)` of the storage's grid or is
   disjoint from it, and the blocks found on the interval grid are the unsplit blocks of that piece (shifted), the
@@ -31,16 +26,23 @@ step a block of its own).  This file:
   alignment `pairsAligned` (decidable: the block pairs of every interval are the unsplit block pairs of the interval's
   piece) the split set-up succeeds, the witness of `EAO.C14` is TRUE for the explicit matching, and split = unsplit
   (feasible sets, values, upper bounds) — no certificate.
+* `blocks_aligned_split_equals_unsplit` — **the former TARGET, proved**: the same with the SET-level condition
+  `blocksAligned` (block boundaries of the unsplit problem = cuts and block boundaries of the interval problems, as
+  sets), which `harness/comp/blocksplit.py` evaluates on every generated case (oracle `aligned_witness`).  The bridge
+  `blocksAligned ⇒ pairsAligned` (`EAO.BlockSplit.pairsAligned_of_blocksAligned`) needs that `blockStartsTick` returns
+  a strictly increasing list `< T` starting with 0 on every interval grid (`blockStartsTick_ok`) and that two strictly
+  increasing boundary lists with the same elements have the same consecutive pairs (`aligned_core`).
+* machine-checked instances: an ALIGNED one (blocks of 90 minutes on an hourly grid, own start: `blocksAligned` and
+  the witness are true), F-14k (blocks of 3 h, intervals of 4 h: misaligned, a split-feasible point violates the
+  unsplit problem) and F-14f (blocks = intervals of 4 h: the last step of every interval is a block of its own, an
+  unsplit-feasible point is not split-feasible).
+  Plus: the counterexample without `hpts`, and the hypotheses of the new theorems on the aligned instance.
 
-REMAINING TARGET (evaluated on every generated case by `harness/comp/blocksplit.py`, oracle `aligned_witness`):
-`blocks_aligned_split_equals_unsplit`, i.e. the same statement with the SET-level condition `blocksAligned` (block
-boundaries as sets) instead of `pairsAligned`.  What is missing is only the bridge `blocksAligned ⇒ pairsAligned`:
-(a) `blockStartsTick` returns a strictly increasing list `< T` starting with 0 on every interval grid (so that
-`blocksOf` succeeds there), (b) two strictly increasing boundary lists with the same elements have the same consecutive
-pairs.  Note that the window of an interval storage is `start or interval start .. stop or interval end`; it selects
-the steps of the unsplit window only if the reference grid lies inside `[gs, ge)` — hypothesis `hpts` below, which the
-TARGET as first written does not have and NEEDS (machine-checked counterexample in the example section: `gs`, `ge` =
-00:00, 04:00 on the eight-hour grid; `blocksAligned` true, witness false).
+REPAIR of the statement as first written: the hypothesis `hpts` (the reference grid lies inside `[gs, ge)`, i.e. `gs`,
+`ge` really are `timegrid.start`, `timegrid.end`) is added.  The window of an interval storage is `start or interval
+start .. stop or interval end`; it selects the steps of the unsplit window `start or gs .. stop or ge` only then.
+Without it the statement FAILS: machine-checked counterexample in the example section (`gs`, `ge` = 00:00, 04:00 on the
+eight-hour grid: `splitHypsS`, `lpKAll`, `blocksAligned` true, witness false).
 -/
 namespace EAO.C14K
 open EAO EAO.SplitStorage EAO.SplitBuild EAO.BlockSplit EAO.Split
@@ -129,6 +131,33 @@ theorem blocks_pairs_aligned_split_equals_unsplit (specs : List SpecK) (ref : Gr
   obtain ⟨ps, hS, hW⟩ := blocks_split_witness specs ref gs ge cuts prices unitSec skip U hH hK hpts hal hU hpos
   obtain ⟨h1, _, h3, h4⟩ := blocks_aligned_split_equals_unsplit_partial specs ref gs ge cuts prices unitSec skip U ps hU hS hW
   exact ⟨ps, hS, hW, h1, h3, h4⟩
+
+/-- **Split = unsplit for storages in time blocks whose boundaries are aligned with the cuts** (the TARGET of this
+    file).  Portfolio of the five builders and storages with `block_size`; `splitHypsS` for the portfolio WITHOUT blocks,
+    every storage `lpK` (no boolean options, `cost_store = 0`, start level = end level in `[0, size]`), the reference grid
+    inside `[gs, ge)`, and `blocksAligned`: for every storage the block boundaries of the unsplit problem are, as a set,
+    the cuts and the block boundaries the code recomputes on the interval grids.  Then the split set-up succeeds, the
+    witness of `EAO.C14` holds against the UNSPLIT problem along the explicit matching, and feasible sets, values and
+    upper bounds of split and unsplit agree. -/
+theorem blocks_aligned_split_equals_unsplit (specs : List SpecK) (ref : Grid) (gs ge : Int) (cuts : List Int)
+    (prices : Prices) (unitSec : Nat) (skip : List String) (U : Problem)
+    (hH : splitHypsS (specs.map fun a => a.unblocked gs ge) ref cuts prices = true)
+    (hK : lpKAll specs = true) (hpts : ∀ t ∈ ref.pts, gs ≤ t ∧ t < ge)
+    (hal : blocksAligned specs ref gs ge cuts = true)
+    (hU : setupPortfolioK specs ref gs ge prices unitSec skip = .ok U) (hpos : 0 < U.n) :
+    ∃ ps, setupSplitK specs ref cuts prices unitSec skip = .ok ps ∧
+      splitWitness U ps (splitPerm U ((splitPairs cuts).map (intervalSteps ref))) = true ∧
+      (∀ x, ((blockSum ps).Feasible x ↔
+              U.Feasible (transportAlong (splitPerm U ((splitPairs cuts).map (intervalSteps ref))) x)) ∧
+            ((blockSum ps).FeasibleRelaxed x ↔
+              U.FeasibleRelaxed (transportAlong (splitPerm U ((splitPairs cuts).map (intervalSteps ref))) x)) ∧
+            (blockSum ps).value x =
+              U.value (transportAlong (splitPerm U ((splitPairs cuts).map (intervalSteps ref))) x)) ∧
+      (∀ B, (∀ y, U.Feasible y → U.value y ≤ B) ↔ (∀ x, (blockSum ps).Feasible x → (blockSum ps).value x ≤ B)) ∧
+      (∀ B, (∀ y, U.FeasibleRelaxed y → U.value y ≤ B) ↔
+        (∀ x, (blockSum ps).FeasibleRelaxed x → (blockSum ps).value x ≤ B)) :=
+  blocks_pairs_aligned_split_equals_unsplit specs ref gs ge cuts prices unitSec skip U hH hK hpts
+    (pairsAligned_of_blocksAligned specs ref gs ge cuts prices hH hpts hal) hU hpos
 
 /-! ## instances: a market and a storage in time blocks, eight hourly steps, two intervals of four hours
 
@@ -228,8 +257,8 @@ example : blocksAligned (exSpecs 14400 none) g8 0 28800 exCuts = false ∧
       (pullbackAlong exPerm (C14.vecOfList [0, 0, 1, -1, 0, 0, 0, 0, 0, 0, -1, 1, 0, 0, 0, 0])) := by
   decide +kernel
 
-/-- the hypotheses of `blocks_pairs_aligned_split_equals_unsplit` on the aligned instance; F-14k and F-14f are not
-    pair-aligned either -/
+/-- the hypotheses of `blocks_aligned_split_equals_unsplit` / `blocks_pairs_aligned_split_equals_unsplit` on the
+    aligned instance (`blocksAligned`, `splitHypsS` are in the first example); F-14k and F-14f are not pair-aligned either -/
 example : pairsAligned (exSpecs 5400 (some 0)) g8 0 28800 exCuts = true ∧ lpKAll (exSpecs 5400 (some 0)) = true ∧
     (∀ t ∈ g8.pts, (0 : Int) ≤ t ∧ t < 28800) ∧
     pairsAligned (exSpecs 10800 none) g8 0 28800 exCuts = false ∧
@@ -239,7 +268,7 @@ example : pairsAligned (exSpecs 5400 (some 0)) g8 0 28800 exCuts = true ∧ lpKA
 example : ∃ ps, setupSplitK (exSpecs 5400 (some 0)) g8 exCuts exPrices 3600 [] = .ok ps ∧
     splitWitness (unsplitOf (exSpecs 5400 (some 0))) ps
       (splitPerm (unsplitOf (exSpecs 5400 (some 0))) ((splitPairs exCuts).map (intervalSteps g8))) = true := by
-  obtain ⟨ps, h1, h2, _⟩ := blocks_pairs_aligned_split_equals_unsplit (exSpecs 5400 (some 0)) g8 0 28800 exCuts exPrices
+  obtain ⟨ps, h1, h2, _⟩ := blocks_aligned_split_equals_unsplit (exSpecs 5400 (some 0)) g8 0 28800 exCuts exPrices
     3600 [] (unsplitOf (exSpecs 5400 (some 0))) (by decide +kernel) (by decide +kernel) (by decide +kernel)
     (by decide +kernel) exU_ok (by decide +kernel)
   exact ⟨ps, h1, h2⟩
@@ -258,7 +287,7 @@ example : Storage.blocksOf { exStore with blocks := some [0, 1, 3, 4, 6, 7] } g8
     variables); in the second interval the window of the storage is `interval start .. interval end`, so the split set-up
     gives it four more steps (8 + 8 variables).  `splitHypsS`, `lpKAll`, `blocksAligned` and `pairsAligned` all hold
     (the second piece of the storage's grid is empty, its boundaries are shifted by 0), the witness is false: without
-    `hpts` the statement fails — also with `blocksAligned` in place of `pairsAligned` -/
+    `hpts` both `blocks_aligned_split_equals_unsplit` and `blocks_pairs_aligned_split_equals_unsplit` fail -/
 example : blocksAligned (exSpecs 7200 none) g8 0 14400 exCuts = true ∧
     pairsAligned (exSpecs 7200 none) g8 0 14400 exCuts = true ∧ lpKAll (exSpecs 7200 none) = true ∧
     splitHypsS ((exSpecs 7200 none).map fun a => a.unblocked 0 14400) g8 exCuts exPrices = true ∧
